@@ -105,6 +105,17 @@ def run(res, replay=None):
             pre = gen.rand_spec(rng, n_total=gen.effective_n(it['spec']) + 1, n_demes=1, n_epochs=2)
             pre['model'] = other
             it['prelude'] = [pre]
+    # designed: the OTHER model family (another enumeration order of the same states) with the same sample size and number of
+    # demes evaluated earlier in the same process; mean spectra only (n = 4, two demes)
+    if not replay:
+        base = {'n_items': [['a', 2], ['b', 2]], 'pop_sizes': {'a': {'0.0': 1.0}, 'b': {'0.0': 2.0, '1.0': 0.5}},
+                'migration_rates': {'a>b': {'0.0': 0.5}, 'b>a': {'0.0': 1.0}}}
+        for mdl, pre in (({'kind': 'dirac', 'psi': 0.5, 'c': 1.0, 'scale_time': False}, {'kind': 'kingman'}),
+                         ({'kind': 'kingman'}, {'kind': 'beta', 'alpha': 1.5, 'scale_time': False})):
+            sp = dict(base, model=mdl, designed='other_family_first')
+            pr = dict(base, model=pre, n_items=[['a', 3], ['b', 1]])
+            items.append(dict(spec=sp, lc=False, prelude=[pr],
+                              ops=[o for o in build_ops(rng, sp) if o['py'].get('path') in ('sfs.mean', 'fsfs.mean')]))
     # SFS accumulation curves on several points at once (points inside epochs, on boundaries, beyond the last change)
     for s in specs[: (3 if res.tier == 'quick' else 15)]:
         if s.get('start_time'):
